@@ -712,6 +712,11 @@ func (e *Env) dumpStore(ctx context.Context, sp StoreSpec, dp *Dump) {
 	}
 	d.Count = b.Count()
 	d.Info = b.GetStoreInfo()
+	if os.Getenv("VERIF_DEBUG") != "" {
+		var raw map[string]any
+		found, err := e.W.InnerL2().GetStruct(ctx, e.Folder+":"+sp.Name, &raw)
+		fmt.Fprintf(os.Stderr, "DEBUG observe %s: b.Count()=%d info.Count=%d L2 found=%v err=%v count=%v\n", sp.Name, d.Count, d.Info.Count, found, err, raw["count"])
+	}
 	ok, err := b.First(ctx)
 	for ok && err == nil {
 		var v string
